@@ -615,6 +615,7 @@ func init() {
 		"log/slog.Info", "log/slog.Warn", "log/slog.Error", "log/slog.Debug",
 		"(*log/slog.Logger).Info", "(*log/slog.Logger).Warn", "(*log/slog.Logger).Error", "(*log/slog.Logger).Debug",
 		"log.Printf", "log.Println", "log.Print", "fmt.Printf", "fmt.Println", "fmt.Print",
+		"fmt.Fprintf", "fmt.Fprintln", "fmt.Fprint",
 		"(*log.Logger).Printf", "(*log.Logger).Println",
 		"runtime.GC", "runtime.KeepAlive", "runtime/debug.FreeOSMemory", "runtime.SetFinalizer",
 	} {
